@@ -19,19 +19,20 @@ const modPath = "github.com/pion/dtls/v3"
 
 // Ctx is the loaded, type-checked program in SSA form plus indexes.
 type Ctx struct {
-	Repo    string
-	Tier    string
-	Fset    *token.FileSet
-	Prog    *ssa.Program
-	Pkgs    []*packages.Package     // module library packages (no examples)
-	ByPath  map[string]*ssa.Package // import path -> ssa package
-	TPkgs   map[string]*packages.Package
-	Fns     []*ssa.Function // every function of the module (incl. anonymous), sorted
-	fnByKey map[string]*ssa.Function
-	cg      *callgraph.Graph
-	GoStmts int
-	lf      map[*ssa.Function]*lockFacts
-	Instrs  int
+	Repo        string
+	Tier        string
+	Fset        *token.FileSet
+	Prog        *ssa.Program
+	Pkgs        []*packages.Package     // module library packages (no examples)
+	ByPath      map[string]*ssa.Package // import path -> ssa package
+	TPkgs       map[string]*packages.Package
+	Fns         []*ssa.Function // every function of the module (incl. anonymous), sorted
+	fnByKey     map[string]*ssa.Function
+	cg          *callgraph.Graph
+	GoStmts     int
+	lf          map[*ssa.Function]*lockFacts
+	boundsReady bool
+	Instrs      int
 }
 
 func shortPath(p string) string {
